@@ -38,6 +38,8 @@ type c15Case struct {
 	StoreMod string            `json:"store_mod,omitempty"`
 	Store    string            `json:"store,omitempty"`
 	Level    string            `json:"level,omitempty"` // process | check
+	Doc      int               `json:"doc,omitempty"`      // discovery: index into world.OddDiscoveryDocs()
+	DocName  string            `json:"doc_name,omitempty"`
 }
 
 // panicSite extracts the innermost frame inside the repository's own packages from a stack dump.
@@ -446,12 +448,31 @@ func c15RunCase(c c15Case) c15Outcome {
 		return c15RunJWKS(c)
 	case "store":
 		return c15RunStore(c)
+	case "discovery":
+		return c15RunDiscovery(c)
 	}
 	panic("unknown group")
 }
 
+// ---- group 5: discovery documents ----
+
+func c15RunDiscovery(c c15Case) c15Outcome {
+	w := world.New(world.Spec{Store: "memory", Forward: true, Logout: true, Discovery: true, NoLogoutRedirect: true, OddDiscovery: c.Doc + 1})
+	defer w.Close()
+	for _, r := range []world.Req{{Path: "/"}, {Path: "/x?y=1", Cookie: "unknown"}, {Path: world.LogoutPath}, {Path: world.LogoutPath, Cookie: "unknown"},
+		{Path: "/callback?code=a&state=b", Cookie: "unknown"}} {
+		res := w.Do(r, world.Plan{})
+		if o := c15Judge(res, "process"); o.Panic != "" || o.Bad != "" {
+			return o
+		}
+	}
+	return c15Outcome{}
+}
+
 func c15Class(c c15Case) string {
 	switch c.Group {
+	case "discovery":
+		return "discovery " + c.DocName
 	case "request":
 		return fmt.Sprintf("request shape=%s cookie=%s path=%s", c.Shape, c15Abbrev(c.Cookie), c15Abbrev(c.Path))
 	case "token-answer":
@@ -577,11 +598,15 @@ func c15Cases(tier string) []c15Case {
 			cs = append(cs, c15Case{Group: "store", Pre: pre, StoreMod: "redis:" + m, Store: "redis"})
 		}
 	}
+	// (5) discovery documents
+	for k, d := range world.OddDiscoveryDocs() {
+		cs = append(cs, c15Case{Group: "discovery", Doc: k, DocName: d.Name})
+	}
 	return cs
 }
 
 func c15Run(run *ev.Run) {
-	run.Rule = "deviation-bounded grammars: (1) CheckRequest shapes x cookies x hosts x paths in 4 session pre-states, through Process and through ExtAuthZFilter.Check; (2) token-endpoint answers on the login and refresh paths: statuses x raw bodies, and objects whose members deviate from the honest default singly and in pairs (triples in thorough), incl. validly signed ID tokens with claims of unexpected type, each followed by two more requests; (3) key-source documents and a failing key lookup; (4) odd store answers (Redis hash fields missing/garbage/wrong type; spy answers nil/nil, value+error); everything once with the no-op loggers and once with log_level all:debug; oracle: recover() - no panic, verdict well-formed; class = distinct input class"
+	run.Rule = "deviation-bounded grammars: (1) CheckRequest shapes x cookies x hosts x paths in 4 session pre-states, through Process and through ExtAuthZFilter.Check; (2) token-endpoint answers on the login and refresh paths: statuses x raw bodies, and objects whose members deviate from the honest default singly and in pairs (triples in thorough), incl. validly signed ID tokens with claims of unexpected type, each followed by two more requests; (3) key-source documents and a failing key lookup; (4) odd store answers (Redis hash fields missing/garbage/wrong type; spy answers nil/nil, value+error); (5) discovery documents with one member odd (endpoints the URL parser rejects, relative, empty, with query/fragment, non-strings) or odd as a whole; everything once with the no-op loggers and once with log_level all:debug; oracle: recover() - no panic, verdict well-formed; class = distinct input class"
 	run.Assumptions = []string{"coverage-guided mutation (fuzzing) is a different family and not claimed", "1 MiB is the largest body"}
 	cases := c15Cases(run.Tier)
 	var evals int64
@@ -674,6 +699,8 @@ func c15SigClass(c c15Case) string {
 		return "token-answer:body=" + c15Abbrev(c.Body)
 	case "jwks":
 		return "jwks"
+	case "discovery":
+		return "discovery:" + c.DocName
 	}
 	return "store:" + c.StoreMod
 }
